@@ -138,7 +138,7 @@ def run(sess: Session):
     querychecks.run_result_checks(sess, PROP)
     coreflows.run_flows(sess, PROP)
     for part, fn in (('converters', converter_obligations), ('lexidmap', build_lexid_map_obligations),
-                     ('no-raise', add_no_raise_obligations)):
+                     ('no-raise', add_no_raise_obligations), ('batch-loops', batch_loop_obligations)):
         try:
             for ob in fn():
                 sess.check(ob)
@@ -206,4 +206,65 @@ def add_no_raise_obligations() -> list:
                                   goal=z3.Not(assumptions[-1]),
                                   detail=f'{exc_type.__name__} ({what}) at line {line} of the enclosing function: a '
                                          f'valid document must not make the insert code raise', **cm))
+    return obs
+
+
+def batch_loop_obligations() -> list:
+    """Side condition of the chunk homomorphism (A-BATCH) under which the body of `for batch in _batch(xs)` is
+    executed once on a generic chunk: apart from the database cursor and the progress handler, the body carries no
+    state from one batch to the next - every container it mutates and every name it re-binds is (re)created inside
+    the body before use.  Decided on the AST of wn/_add.py."""
+    import ast as _ast
+    from wn import _add
+    obs = []
+    src = inspect.getsource(_add)
+    tree = _ast.parse(src)
+    MUT = {'append', 'extend', 'add', 'update', 'setdefault', 'insert', 'pop', 'clear', 'remove', 'discard',
+           'appendleft', 'popitem'}
+    ALLOWED = {'cur', 'progress', 'conn'}
+    nloops = 0
+    for fn in [n for n in _ast.walk(tree) if isinstance(n, _ast.FunctionDef)]:
+        for loop in [n for n in _ast.walk(fn) if isinstance(n, _ast.For)]:
+            it = loop.iter
+            if not (isinstance(it, _ast.Call) and isinstance(it.func, _ast.Name) and it.func.id == '_batch'):
+                continue
+            nloops += 1
+            bound = {}       # name -> first line where the body binds it
+            for node in _ast.walk(_ast.Module(body=loop.body, type_ignores=[])):
+                targets = []
+                if isinstance(node, _ast.Assign):
+                    targets = node.targets
+                elif isinstance(node, (_ast.AnnAssign,)):
+                    targets = [node.target]
+                elif isinstance(node, _ast.For):
+                    targets = [node.target]
+                for t in targets:
+                    for nm in _ast.walk(t):
+                        if isinstance(nm, _ast.Name) and isinstance(nm.ctx, _ast.Store):
+                            bound.setdefault(nm.id, node.lineno)
+            carried = []
+            for node in _ast.walk(_ast.Module(body=loop.body, type_ignores=[])):
+                recv = None
+                if isinstance(node, _ast.Call) and isinstance(node.func, _ast.Attribute) and node.func.attr in MUT:
+                    recv = node.func.value
+                elif isinstance(node, _ast.AugAssign):
+                    recv = node.target
+                elif isinstance(node, (_ast.Assign, _ast.Delete)):
+                    for t in (node.targets if isinstance(node, (_ast.Assign, _ast.Delete)) else []):
+                        if isinstance(t, _ast.Subscript):
+                            recv = t.value
+                while isinstance(recv, (_ast.Subscript, _ast.Attribute)):
+                    recv = recv.value
+                if isinstance(recv, _ast.Name) and recv.id not in ALLOWED:
+                    if recv.id not in bound or bound[recv.id] > node.lineno:
+                        carried.append(f'{recv.id} (line {node.lineno})')
+            obs.append(Obligation(f'wn._add.{fn.name}:batch-loop@{loop.lineno - fn.lineno}:no-carried-state', PROP,
+                                  'static', decided=not carried,
+                                  detail=('the body mutates state created outside the loop over batches: '
+                                          + ', '.join(sorted(set(carried))) if carried else
+                                          'every container mutated in the body is created in the body'),
+                                  functions=(f'wn._add.{fn.name}',), source=f'wn/_add.py:{loop.lineno}',
+                                  assumptions_used=('A-BATCH',)))
+    obs.append(Obligation('wn._add:batch-loops:found', PROP, 'static', decided=nloops > 0,
+                          detail=f'{nloops} loops over _batch(...)', functions=('wn._add',)))
     return obs
